@@ -4,14 +4,15 @@ Usage: lib/seedtest.py <seed-name> [--tier quick|thorough]   (seed-name like C06
 Never commits anything to /repo; refuses to run when /repo has local modifications."""
 import subprocess, sys, os, json
 ROOT = os.path.dirname(os.path.dirname(os.path.abspath(__file__)))
+REPO = os.environ.get('VERIF_REPO', '/repo')   # a scratch clone may stand in for /repo (with a scratch copy of /verif)
 def main():
     name = sys.argv[1]; extra = sys.argv[2:]
     prop = name.split('-')[0]
     d = os.path.join(ROOT, 'seeded', name)
-    st = subprocess.run(['git', '-C', '/repo', 'status', '--porcelain'], capture_output=True, text=True).stdout.strip()
+    st = subprocess.run(['git', '-C', REPO, 'status', '--porcelain'], capture_output=True, text=True).stdout.strip()
     if st:
         print('refusing: /repo has local modifications:\n' + st); return 2
-    subprocess.run(['git', '-C', '/repo', 'apply', os.path.join(d, 'patch.diff')], check=True)
+    subprocess.run(['git', '-C', REPO, 'apply', os.path.join(d, 'patch.diff')], check=True)
     try:
         r = subprocess.run([os.path.join(ROOT, 'check'), prop] + extra, capture_output=True, text=True)
         out = r.stdout + r.stderr
@@ -21,7 +22,7 @@ def main():
         viol = [l for l in lines if l.startswith('VIOLATION')]
         return 0 if (r.returncode == 1 and viol) else 1
     finally:
-        subprocess.run(['git', '-C', '/repo', 'checkout', '--', '.'], check=True)
-        subprocess.run(['git', '-C', '/repo', 'clean', '-fdq'], check=True)
+        subprocess.run(['git', '-C', REPO, 'checkout', '--', '.'], check=True)
+        subprocess.run(['git', '-C', REPO, 'clean', '-fdq'], check=True)
 if __name__ == '__main__':
     sys.exit(main())
